@@ -1002,6 +1002,16 @@ namespace avel {
         auto d6 = extract<6>(y);
         auto d7 = extract<7>(y);
 
+        // A zero divisor must not trap; the result of such a lane is unspecified
+        d0 += (d0 == 0);
+        d1 += (d1 == 0);
+        d2 += (d2 == 0);
+        d3 += (d3 == 0);
+        d4 += (d4 == 0);
+        d5 += (d5 == 0);
+        d6 += (d6 == 0);
+        d7 += (d7 == 0);
+
         vec8x64i quotient{};
         quotient = insert<0>(quotient, n0 / d0);
         quotient = insert<1>(quotient, n1 / d1);
